@@ -3,7 +3,7 @@
    The model is Model/Convert.v (tied to yaql/language/utils.py and to
    '#finalize' / Statement.evaluate by harness/props/c10.py). *)
 From Coq Require Import List ZArith Bool.
-From YV Require Import Common.Corr Model.Convert Lemmas.ConvertBase Lemmas.ConvertSpec Lemmas.ConvertIdem.
+From YV Require Import Common.Corr Model.Convert Model.ConvertId Lemmas.ConvertBase Lemmas.ConvertSpec Lemmas.ConvertIdem Lemmas.ConvertFresh.
 Import ListNotations.
 
 (* Whatever finalisation returns is plain data under the options in force, at
@@ -93,6 +93,34 @@ Theorem C10_F7_before_fix : forall o kvs, kvs <> [] -> t2l o = true -> s2l o = f
   finalize_view_before_fix o KItems kvs = Err PyType.
 Proof. exact items_failed_before_fix. Qed.
 
+(* ---- identity (Model/ConvertId.v): mutable containers carry the index of their object ---- *)
+(* Whatever the evaluated value aliases (the same list / dict / set object at several
+   positions, host containers reaching the finaliser): every list / dict / set node of
+   the result is allocated by the conversion - it is none of the input's objects, and
+   no two positions of the result hold the same object.  All four option combinations. *)
+Theorem C10_output_fresh : forall o v n r n',
+  co_id o v n = Ok (r, n') -> (forall i, In i (cells v) -> i < n) ->
+  NoDup (cells r) /\ (forall i, In i (cells r) -> n <= i < n') /\ (forall i, In i (cells r) -> ~ In i (cells v)).
+Proof. exact co_id_fresh. Qed.
+
+(* the identity-carrying conversion IS convert_output once identities are forgotten,
+   so every theorem above speaks about it *)
+Theorem C10_output_id_erase : forall o v n,
+  match co_id o v n with
+  | Ok (r, _) => convert_output o (erase v) = Ok (erase r)
+  | Err e => convert_output o (erase v) = Err e
+  end.
+Proof. exact co_id_erase. Qed.
+
+(* `$`: the value built from host data d has no mutable node at all, and the result
+   returned to the host shares no list / dict / set object with d *)
+Theorem C10_dollar_fresh : forall o d n r n',
+  (forall i, In i (cells d) -> i < n) ->
+  co_id o (inj (convert_input (erase d))) n = Ok (r, n') ->
+  cells (inj (convert_input (erase d))) = [] /\ NoDup (cells r) /\
+  (forall i, In i (cells r) -> ~ In i (cells d)) /\ convert_output o (convert_input (erase d)) = Ok (erase r).
+Proof. exact dollar_fresh. Qed.
+
 (* ---- non-vacuity --------------------------------------------------------------- *)
 Definition s_a : str := [97%Z].
 Definition doc := VDict [(VStr s_a, VList [VInt 1; VTuple [VNull; VFloat 0]; VSet [VInt 2; VStr s_a]]);
@@ -139,6 +167,16 @@ Example scalar_keyed_zoo :
 Proof. reflexivity. Qed.
 Example wellformed_example : wfb default_opts (VDict [(VStr s_a, VSet [VInt 1; VInt 2])]) = true
                              /\ wfb default_opts (VDict [(VInt 1, VNull); (VBool true, VNull)]) = false.
+Proof. split; reflexivity. Qed.
+
+(* a host list holding the SAME list object twice, reaching the finaliser as it is:
+   the two copies in the result are different new objects *)
+Example aliasing_example :
+  co_id default_opts (IList 0 [IList 1 [IInt 5]; IList 1 [IInt 5]; IDict 2 [(IStr s_a, IList 1 [IInt 5])]]) 3
+  = Ok (IList 7 [IList 3 [IInt 5]; IList 4 [IInt 5]; IDict 6 [(IStr s_a, IList 5 [IInt 5])]], 8).
+Proof. reflexivity. Qed.
+Example fresh_okb_rejects_alias :
+  fresh_okb 3 (IList 7 [IList 1 [IInt 5]]) = false /\ fresh_okb 3 (IList 7 [IList 4 []; IList 4 []]) = false.
 Proof. split; reflexivity. Qed.
 
 Example hash_rule :
